@@ -196,6 +196,15 @@ func bodyText(r *fw.Rand, n int) string {
 	for i := range b {
 		b[i] = al[r.Intn(len(al))]
 	}
+	// one body in five begins with line breaks of its own, or has some inside: the blank line
+	// that ends the header block is one CRLF, what follows belongs to the body
+	if n >= 4 && r.Chance(1, 5) {
+		pre := []string{"\r\n", "\n", "\r", "\r\n\r\n", "\n\n"}[r.Intn(5)]
+		copy(b, pre)
+		if r.Bool() {
+			copy(b[n/2:], "\r\n")
+		}
+	}
 	return string(b)
 }
 
